@@ -277,7 +277,23 @@ func (x *Exec) wf(st *State, v *Term, t types.Type) *Term {
 	return x.wfAt(st.alloc, v, t, 0)
 }
 
+func init() { entryOnlyHook = entryOnly }
+
+var entryOnlyCache = map[*Term]bool{}
+
 func entryOnly(t *Term) bool {
+	if v, ok := entryOnlyCache[t]; ok {
+		return v
+	}
+	v := entryOnly0(t)
+	if len(entryOnlyCache) > 200000 {
+		entryOnlyCache = map[*Term]bool{}
+	}
+	entryOnlyCache[t] = v
+	return v
+}
+
+func entryOnly0(t *Term) bool {
 	ok := true
 	n := 0
 	t.walk(func(s *Term) {
